@@ -753,6 +753,10 @@ func deadlockInDump(stderr string) (bool, string) {
 		if k := strings.Index(state, ","); k > 0 {
 			state = state[:k]
 		}
+		if state == "sleep" && strings.Contains(b, "runtime.(*VM).Wait") {
+			// the host polling for the end of its cores between sleeps: it waits for the others
+			continue
+		}
 		inRepo++
 		isBlocked := false
 		for _, s := range blockedStates {
